@@ -10,6 +10,7 @@ proved for every `CharT`.
 The proofs (and the loop lemmas between them) are in Members.lean; every statement is restated here.
 -/
 import TetlProofs.C17.Members
+import TetlProofs.C17.Popcount
 namespace Tetl.C17.Props
 open Tetl Tetl.C17 Tetl.C17.Members
 
@@ -130,6 +131,13 @@ theorem any_eq {N k : Nat} {ws : Words k} {f : Spec.Bits} (h : Rep N k ws f) : a
 theorem eq_eq {N k : Nat} {a b : Words k} {fa fb : Spec.Bits} (ha : Rep N k a fa) (hb : Rep N k b fb) :
     eq a b = Spec.eq N fa fb :=
   Members.eq_eq ha hb
+
+/-- `etl::popcount` as code: the portable loop `detail::popcount_fallback` (`for (; val != 0; val &= val - 1) c++`,
+    property C14's model `Tetl.C14.popLoop`), run on a storage word, returns the number of one bits that the
+    C17 model's `popcount` stands for.  (The run-time path calls `__builtin_popcount*`, which is trusted.) -/
+theorem popcount_code {k : Nat} (word : Word k) :
+    C14.popcountFallback (2 ^ k) word.toNat = .ok (popcount word) :=
+  popcountFallback_eq word
 
 /-- `count()` -/
 theorem count_eq' {N k : Nat} {ws : Words k} {f : Spec.Bits} (h : Rep N k ws f) : count ws = Spec.count N f :=
